@@ -1,4 +1,5 @@
 import Batteries.Tactic.Alias
+import GenlmModel.Proofs.Star
 import GenlmModel.Proofs.Wfsa
 /-! # C12 — rational operations implement the algebra of weighted languages
 Exact-length path identities, every commutative semiring, operands with ε arcs and several
@@ -12,4 +13,9 @@ alias injective_renaming_irrelevant := Genlm.mapStates_Pk
 alias lift_spec := Genlm.lift_spec
 alias from_string_spec := Genlm.fromString_spec
 alias zero_spec := Genlm.zero_spec
+/-- star = one + plus -/
+alias star_is_one_plus_plus := Genlm.star_Pk
+alias concat_limit := Genlm.concat_PN_limit
+alias plus_limit := Genlm.kleenePlus_PN_limit
+alias star_limit := Genlm.star_PN_limit
 end Genlm.Props.C12
